@@ -2,6 +2,7 @@ package e1
 
 import (
 	"context"
+	"encoding/json"
 	"errors"
 	"fmt"
 	"net"
@@ -268,6 +269,16 @@ func body(sc *Scenario, rec *Record) {
 				}
 			case k == at.FailAt:
 				res = errors.New("scripted handler failure")
+			}
+			if at.HandlerMode == "marshal" && res == nil {
+				// a consumer that serialises what it gets (reading accessor of the
+				// library): the delivered values must stay what they were
+				if _, err := json.Marshal(tx); err != nil {
+					rec.AliasWithin = "json.Marshal of the delivered transaction failed: " + err.Error()
+				}
+				if diff := d.Snap.Diff(hx.Snapshot(tx)); diff != "" && rec.AliasWithin == "" {
+					rec.AliasWithin = "the delivered transaction changed when it was serialised to JSON: " + diff
+				}
 			}
 			if at.HandlerMode == "scribble" && res == nil {
 				if why := hx.AliasProbe(tx); why != "" && rec.AliasWithin == "" {
